@@ -14,29 +14,29 @@
   The statement is an equivalence, so it also says: the optimized parser terminates exactly when
   the un-optimized one does.  L0 has no tags; "the same parse tree" is up to tags.
 
-  ## Hypotheses (`WF`, decided by the executable `wfCheck`)
-  The optimizer is *not* sound for every rule table; each hypothesis below excludes a concrete
-  counterexample (see the `example`s at the end; all confirmed on the real code).  Every grammar
-  shipped with the repository (examples/, tests/grammars/) satisfies `wfCheck`.
-  * `nodes`  (`NodeOK` of every node of every rule body)
+  ## Hypotheses (`WF`, decided by the executable `OptS.wfCheck` of OptHyps.lean)
+  After the repairs of `_skip` (no `SkipUntil` branch), `inline_silent_rules` (never inlines
+  `WHITESPACE` / `COMMENT`) and `_is_atomic` (the name `SKIP` is not trusted) the hypotheses are:
+  * `nodes`  (`NodeOK` of every node of every rule body) — shapes the front end always builds:
       - embedded rule objects are the built-ins: silent (except `EOI`), never atomic / compound /
         non-atomic, their body is not directly another rule object or a reference, `ANY` is
         `_Any`, a Unicode property rule carries its own name
                                        — what `inline_builtin` / `squash` / `skip` assume;
-      - no reference *by name* to `ANY` or `SKIP` (the front end embeds the built-in objects);
-      - **an untagged reference to a silent rule that switches atomicity (a silent `WHITESPACE` /
-        `COMMENT` referenced explicitly) occurs only in a rule that is itself atomic (`@`, `$`,
-        trivia)**: `inline_silent_rules` copies the body of the trivia rule, which then runs with
-        implicit trivia *on* if the referring rule is not atomic;
+      - no reference *by name* to `ANY` (the front end embeds the built-in object);
+      - a reference to a silent rule is to a rule whose modifier is `_` alone (one modifier per
+        rule): `inline_silent_rules` tests the SILENT bit only, an `_@` rule would lose its atomicity;
       - a `Choice` is not empty, a range is not reversed (neither can be loaded), an
         `OptimizedChoice` (optimizer-made) is non-empty, non-repeating, without reversed ranges.
-  * `noSkip`  no grammar rule is called `SKIP` (`_is_atomic` treats any rule of that name as atomic).
-  * `notp`    `_skip`'s walk from the operand of a negative predicate (through groups, choices,
-              references) meets no `Repeat`/`SkipUntil`: otherwise `!x`, with `x` itself rewritten
-              to `SkipUntil` earlier in the same pass, is collected as "skip until x's strings".
+  * `noFused`  no grammar rule called `SKIP` has the modifier `SILENT+ATOMIC` by which
+              `parse_trivia` recognises the fused rule (a rule called `SKIP` with any other
+              modifier is an ordinary rule, and `_optimize_skip_rule` then leaves the table alone).
+  * `skipRef`  `SKIP` is referenced only if the grammar defines it (else the reference is a
+              `KeyError` un-optimized and the fused trivia rule optimized).
   * `wsProgress`  if `WHITESPACE` is fused, no alternative is the empty string (the un-optimized
-              `parse_trivia` loop does not end on it, the fused regex does).
-  * `k ≤ inp.size`  (`SkipUntil.parse` moves a position beyond the input *back* to its end).
+              `parse_trivia` loop does not end on it, the fused regex does)   — out of the repaired scope.
+  * `k ≤ inp.size`  (`SkipUntil.parse` moves a position beyond the input *back* to its end)
+                                                                    — out of the repaired scope.
+  Every grammar shipped with the repository (examples/, tests/grammars/) satisfies `wfCheck`.
 -/
 import PestModel.Lemmas.OptSoundFinal
 import PestModel.Props.C03
@@ -47,8 +47,8 @@ namespace C02
 
 open L0 OptS
 
-/-- the hypotheses on the un-optimized grammar (all passes) -/
-abbrev WF (g : Grammar) : Prop := OptS.WF OptS.Fall g
+/-- the hypotheses on the un-optimized grammar -/
+abbrev WF (g : Grammar) : Prop := OptS.WF g
 
 /-- the hypotheses can be evaluated -/
 theorem wf_of_check {g : Grammar} (h : wfCheck g = true) : WF g := wfCheck_sound h
@@ -62,36 +62,52 @@ theorem optimizer_sound (g g' : Grammar) (passes : List Opt.Pass)
     ∀ (start : String) (_ : g.lookup start ≠ none) (inp : Input) (k : Nat) (_ : k ≤ inp.size) (r : R0),
       Conv g inp (.ident start none) (s0 k) r ↔ Conv g' inp (.ident start none) (s0 k) r := by
   intro start hs inp k hk r
-  exact (optimize_sound hwf passes hp h).1 inp _ _ r (NSR_start hwf hs) hk
+  exact (optimize_sound hwf passes hp (kept_true _) (fun _ _ => trivial) (fun _ => trivial)
+    (fun _ _ => trivial) h).1 inp _ _ r (NSR_start hs) hk
 
 /-- the fused trivia rule of the optimized grammar cannot fail, so C03 / C01 apply to it -/
 theorem optimized_skip_total (g g' : Grammar) (passes : List Opt.Pass)
     (hp : ∀ p ∈ passes, p ∈ Opt.defaultPasses) (hwf : WF g) (h : Opt.optimize g passes = some g') :
     SkipTotal g' :=
-  (optimize_sound hwf passes hp h).2
+  (optimize_sound hwf passes hp (kept_true _) (fun _ _ => trivial) (fun _ => trivial)
+    (fun _ _ => trivial) h).2.1
 
-/-- the same for every expression that does not mention `SKIP`, from every state inside the input -/
+/-- the same for every expression (not mentioning `SKIP`, unless the grammar defines it), from
+    every state inside the input -/
 theorem optimizer_sound_expr (g g' : Grammar) (passes : List Opt.Pass)
     (hp : ∀ p ∈ passes, p ∈ Opt.defaultPasses) (hwf : WF g) (h : Opt.optimize g passes = some g')
-    (inp : Input) (e : Expr) (he : NSR e) (s : S0) (hs : s.pos ≤ inp.size) (r : R0) :
+    (inp : Input) (e : Expr) (he : g.lookup "SKIP" = none → NSR e) (s : S0) (hs : s.pos ≤ inp.size) (r : R0) :
     Conv g inp e s r ↔ Conv g' inp e s r :=
-  (optimize_sound hwf passes hp h).1 inp e s r he hs
+  (optimize_sound hwf passes hp (kept_true _) (fun _ _ => trivial) (fun _ => trivial)
+    (fun _ _ => trivial) h).1 inp e s r he hs
 
-/-- without the `skip` pass the hypothesis `notp` is not needed -/
-theorem optimizer_sound_noskip (g g' : Grammar) (passes : List Opt.Pass)
-    (hp : ∀ p ∈ passes, p ∈ Opt.defaultPasses ∧ p.name ≠ .skip) (hwf : OptS.WF ⟨true, false⟩ g)
-    (h : Opt.optimize g passes = some g') :
-    ∀ (start : String) (_ : g.lookup start ≠ none) (inp : Input) (k : Nat) (_ : k ≤ inp.size) (r : R0),
-      Conv g inp (.ident start none) (s0 k) r ↔ Conv g' inp (.ident start none) (s0 k) r := by
-  intro start hs inp k hk r
-  have B : ∀ sg, Builders ⟨true, false⟩ sg g := fun sg =>
-    ⟨fun _ => squashSem, fun h => absurd h (by decide),
-     fun hF G hu hinv fa a e he => squashChoice_TR (sg := ⟨sg, fa⟩) G hu hF hinv a e he,
-     fun h => absurd h (by decide), fun h => absurd h (by decide)⟩
-  have := optimize_sound_of (F := ⟨true, false⟩) hwf (fusionWS hwf hwf.wsProgress)
-    (fun h => absurd h (by decide)) B passes
-    (fun p hpm => ⟨(hp p hpm).1, fun _ => rfl, fun h => absurd h (hp p hpm).2⟩) h
-  exact this.1 inp _ _ r (NSR_start hwf hs) hk
+/-- **Termination is preserved**: the optimized parser gives an answer (with enough recursion
+    budget) exactly when the un-optimized one does -/
+theorem optimizer_preserves_termination (g g' : Grammar) (passes : List Opt.Pass)
+    (hp : ∀ p ∈ passes, p ∈ Opt.defaultPasses) (hwf : WF g) (h : Opt.optimize g passes = some g')
+    (start : String) (hs : g.lookup start ≠ none) (inp : Input) (k : Nat) (hk : k ≤ inp.size) :
+    (∃ n, run g inp n (.ident start none) (s0 k) ≠ .oof) ↔
+    (∃ n, run g' inp n (.ident start none) (s0 k) ≠ .oof) := by
+  have hsound := optimizer_sound g g' passes hp hwf h start hs inp k hk
+  constructor
+  · rintro ⟨n, hn⟩
+    obtain ⟨m, hm, hr⟩ := (hsound _).1 ⟨n, rfl, hn⟩
+    exact ⟨m, by rw [hm]; exact hr⟩
+  · rintro ⟨n, hn⟩
+    obtain ⟨m, hm, hr⟩ := (hsound _).2 ⟨n, rfl, hn⟩
+    exact ⟨m, by rw [hm]; exact hr⟩
+
+/-- `optimize` keeps names and modifiers and adds at most the rule `SKIP` (no hypothesis) -/
+theorem optimizer_keeps_signature (g g' : Grammar) (passes : List Opt.Pass)
+    (h : Opt.optimize g passes = some g') (n : String) (hn : n ≠ "SKIP") :
+    (g'.lookup n).map (fun r => (r.name, r.mod)) = (g.lookup n).map (fun r => (r.name, r.mod)) :=
+  optimize_sig h n hn
+
+/-- `optimize` keeps SOI-freeness (`soiFree` looks through embedded rule objects) -/
+theorem optimizer_keeps_soiFree (g g' : Grammar) (passes : List Opt.Pass)
+    (hp : ∀ p ∈ passes, p ∈ Opt.defaultPasses) (hwf : WF g) (h : Opt.optimize g passes = some g')
+    (hs : soiFreeG g = true) : soiFreeG g' = true :=
+  optimize_soiFree hwf hp h hs
 
 /-! ### "interpreted" and "generated from the optimized rules" -/
 
@@ -144,7 +160,7 @@ theorem opt_interp_vs_plain (g g' : Grammar) (passes : List Opt.Pass)
   have ha := opt_interp_agrees g g' passes hp hwf h start hs inp k hk fuel
   rw [hr] at ha
   have hst : SkipTotal g := by
-    intro r hr; rw [hwf.fused] at hr; exact absurd hr (by simp)
+    intro r hr; rw [hwf.noFused] at hr; exact absurd hr (by simp)
   cases m with
   | true =>
     obtain ⟨s, ⟨n, hn, hne⟩, h2, _⟩ := ha
@@ -256,7 +272,7 @@ example : endOf (L0.parse demoG #[97, 32, 49, 50, 32, 121, 32, 104, 105, 47, 33]
 
 /-- a COMMENT-only grammar (fusion `SKIP = Repeat(COMMENT.expression)`), a built-in whose
     `with_children` makes a new object (`NEWLINE`), and an explicit reference to the silent trivia
-    rule inside an atomic rule -/
+    rule inside an atomic rule (which `inline_silent_rules` now leaves alone) -/
 def newlineN : Expr := .rule "NEWLINE" 2 false (.choice [.str [10], .str [13, 10], .str [13]])
 
 def demoG2 : Grammar :=
@@ -270,55 +286,88 @@ example : wfCheck demoG2 = true ∧ (Opt.optimize demoG2 Opt.defaultPasses).isSo
     (match (optG demoG2).lookup "SKIP", (optG demoG2).lookup "word" with
      | some ⟨_, 6, .rep (.seq [.str [35], .skipUntil [[10], [13, 10], [13]]]), _⟩,
        some ⟨_, _, .seq [.seq [.optChoice _ false, .rep (.optChoice _ false)],
-                        .opt (.seq [.str [35], .skipUntil [[10], [13, 10], [13]]])], _⟩ => true
+                        .opt (.ident "COMMENT" none)], _⟩ => true
      | _, _ => false) = true := by decide +kernel
 
 example : endOf (L0.parse demoG2 #[97, 98, 35, 120, 10, 99, 10] 40 "line" 0) = some (5, 1) ∧
     endOf (L0.parse (optG demoG2) #[97, 98, 35, 120, 10, 99, 10] 40 "line" 0) = some (5, 1) := by
   decide +kernel
 
-/-! ### Each hypothesis is needed: the mirrored optimizer changes the meaning without it -/
+/-! ### Regression: the witnesses of the repaired findings (the optimizer now keeps the result) -/
 
-/-- `x = @{ (!"a" ~ ANY)* }`, `y = @{ (!x ~ ANY)* }`: `x` is rewritten first, then `_skip` walks from
-    `!x` into the `SkipUntil` that `x` has become (hypothesis `notp`) -/
+/-- `x = @{ (!"a" ~ ANY)* }`, `y = @{ (!x ~ ANY)* }`: `_skip` no longer walks from `!x` into the
+    `SkipUntil` that `x` has become -/
 def badChain : Grammar :=
   { rules := [
       ⟨"x", ATOMIC, .rep (.group (.seq [.notP (.str [97]), anyN]) none), .grammar⟩,
       ⟨"y", ATOMIC, .rep (.group (.seq [.notP (.ident "x" none), anyN]) none), .grammar⟩] }
 
-example : wfCheck badChain = false ∧
-    endOf (L0.parse badChain #[98, 98, 97] 30 "y" 0) = some (0, 1) ∧
-    endOf (L0.parse (optG badChain) #[98, 98, 97] 30 "y" 0) = some (2, 1) := by decide +kernel
+example : wfCheck badChain = true ∧
+    endOf (L0.parse badChain #[98, 98, 97] 20 "y" 0) = some (0, 1) ∧
+    endOf (L0.parse (optG badChain) #[98, 98, 97] 20 "y" 0) = some (0, 1) := by decide +kernel
 
-/-- `WHITESPACE = _{ "a" ~ "b" }`, `x = { "<" ~ WHITESPACE ~ ">" }`: the silent trivia rule is atomic
-    by name; inlined into `x` its body runs with implicit trivia on (hypothesis `nodes`) -/
+/-- `WHITESPACE = _{ "a" ~ "b" }`, `x = { "<" ~ WHITESPACE ~ ">" }`: the silent trivia rule is no
+    longer inlined -/
 def badInline : Grammar :=
   { rules := [
       ⟨"WHITESPACE", SILENT, .seq [.str [97], .str [98]], .grammar⟩,
       ⟨"x", 0, .seq [.str [60], .ident "WHITESPACE" none, .str [62]], .grammar⟩] }
 
-example : wfCheck badInline = false ∧
-    endOf (L0.parse badInline #[60, 97, 97, 98, 98, 62] 30 "x" 0) = none ∧
-    endOf (L0.parse (optG badInline) #[60, 97, 97, 98, 98, 62] 30 "x" 0) = some (6, 1) := by decide +kernel
+example : wfCheck badInline = true ∧
+    endOf (L0.parse badInline #[60, 97, 97, 98, 98, 62] 20 "x" 0) = none ∧
+    endOf (L0.parse (optG badInline) #[60, 97, 97, 98, 98, 62] 20 "x" 0) = none := by decide +kernel
 
 /-- `WHITESPACE = _{ " " }`, `SKIP = { (!"y" ~ ANY)* }`: a grammar rule that happens to be called
-    `SKIP` is treated as atomic by `_is_atomic` (hypothesis `noSkip`) -/
+    `SKIP` is an ordinary rule -/
 def badSkipName : Grammar :=
   { rules := [
       ⟨"WHITESPACE", SILENT, .str [32], .grammar⟩,
       ⟨"SKIP", 0, .rep (.group (.seq [.notP (.str [121]), anyN]) none), .grammar⟩] }
 
-example : wfCheck badSkipName = false ∧
-    endOf (L0.parse badSkipName #[97, 32, 121] 30 "SKIP" 0) = some (1, 1) ∧
-    endOf (L0.parse (optG badSkipName) #[97, 32, 121] 30 "SKIP" 0) = some (2, 1) := by decide +kernel
+example : wfCheck badSkipName = true ∧
+    endOf (L0.parse badSkipName #[97, 32, 121] 20 "SKIP" 0) = some (1, 1) ∧
+    endOf (L0.parse (optG badSkipName) #[97, 32, 121] 20 "SKIP" 0) = some (1, 1) := by decide +kernel
+
+/-! ### The remaining hypotheses are needed: the mirrored optimizer changes the meaning without -/
+
+/-- `COMMENT = _{ "#" }`, `x = { "a" ~ SKIP }`: an undefined reference to `SKIP` is a `KeyError`
+    un-optimized and the fused trivia rule optimized (hypothesis `skipRef`) -/
+def badSkipRef : Grammar :=
+  { rules := [
+      ⟨"COMMENT", SILENT, .str [35], .grammar⟩,
+      ⟨"x", 0, .seq [.str [97], .ident "SKIP" none], .grammar⟩] }
+
+example : wfCheck badSkipRef = false ∧
+    endOf (L0.parse badSkipRef #[97, 35] 20 "x" 0) = none ∧
+    endOf (L0.parse (optG badSkipRef) #[97, 35] 20 "x" 0) = some (2, 1) := by decide +kernel
+
+/-- a rule called `SKIP` with the modifier `SILENT+ATOMIC` (the front end cannot build it) is what
+    `parse_trivia` runs, but the optimizer does not know (hypothesis `noFused`) -/
+def badFused : Grammar :=
+  { rules := [
+      ⟨"SKIP", SILENT + ATOMIC, .str [32], .grammar⟩,
+      ⟨"x", 0, .rep (.group (.seq [.notP (.str [98]), anyN]) none), .grammar⟩] }
+
+example : wfCheck badFused = false ∧
+    endOf (L0.parse badFused #[97, 32, 98] 20 "x" 0) = some (1, 1) ∧
+    endOf (L0.parse (optG badFused) #[97, 32, 98] 20 "x" 0) = some (2, 1) := by decide +kernel
+
+/-- `WHITESPACE = _{ "" | " " }`: rejected by `wfCheck` (hypothesis `wsProgress`; the un-optimized
+    `parse_trivia` loop does not terminate on it, which `decide` cannot show) -/
+def badEmptyWS : Grammar :=
+  { rules := [
+      ⟨"WHITESPACE", SILENT, .choice [.str [], .str [32]], .grammar⟩,
+      ⟨"x", 0, .seq [.str [97], .str [98]], .grammar⟩] }
+
+example : wfCheck badEmptyWS = false := by decide +kernel
 
 /-- a start position beyond the end of the input: `SkipUntil` moves it back (hypothesis `k ≤ inp.size`) -/
 def beyond : Grammar :=
   { rules := [⟨"t", ATOMIC, .rep (.group (.seq [.notP (.str [97]), anyN]) none), .grammar⟩] }
 
 example : wfCheck beyond = true ∧
-    endOf (L0.parse beyond #[98] 30 "t" 3) = some (3, 1) ∧
-    endOf (L0.parse (optG beyond) #[98] 30 "t" 3) = some (1, 1) := by decide +kernel
+    endOf (L0.parse beyond #[98] 20 "t" 3) = some (3, 1) ∧
+    endOf (L0.parse (optG beyond) #[98] 20 "t" 3) = some (1, 1) := by decide +kernel
 
 end C02
 end Pest
